@@ -14,8 +14,9 @@ from .model import Class, Module, Program, real_body, u
 
 
 class Std:
-    def __init__(self, prog: Program, pkg: pathlib.Path):
+    def __init__(self, prog: Program, pkg: pathlib.Path, canon=None):
         self.prog = prog
+        self.canon = canon          # hv.canon.Canon: method bodies are read in canonical form (locals substituted, positional layout)
         self.defs_dir = pkg / "std" / "_json_defs"
         self.exts: dict[str, dict] = {}
         self.files: dict[str, pathlib.Path] = {}
@@ -26,6 +27,12 @@ class Std:
             self.exts[dotted] = json.loads(p.read_text())
             self.files[dotted] = p
         self.load_sites: list[tuple[Module, ast.Call, str]] = []
+
+    def _method(self, cls: Class, name: str):
+        k, m = cls.find_method(name) if hasattr(cls, "find_method") else (cls, cls.methods.get(name))
+        if m is None or self.canon is None:
+            return m
+        return self.canon.fn(m, k.module, k)
 
     # ---- descriptors -------------------------------------------------------------------
     def desc(self, mod: Module, e: ast.expr, loc: dict | None = None, cls: Class | None = None, depth: int = 0):
@@ -77,7 +84,7 @@ class Std:
         if isinstance(e, ast.Attribute):
             if isinstance(e.value, ast.Name) and e.value.id == "self" and cls is not None:
                 # attribute set in __init__ of the value class
-                init = cls.methods.get("__init__")
+                init = self._method(cls, "__init__") if "__init__" in cls.methods else None
                 if init is not None:
                     for n in ast.walk(init):
                         if isinstance(n, ast.Assign) and u(n.targets[0]) == f"self.{e.attr}":
@@ -98,7 +105,7 @@ class Std:
 
     def class_instance(self, c: Class, call: ast.Call, mod: Module, loc: dict, depth: int):
         """Array(ty, n) / List(ty) / StaticArray(ty): the type definition and arguments set by __init__"""
-        init = c.methods.get("__init__")
+        init = self._method(c, "__init__") if "__init__" in c.methods else None
         if init is None:
             return None
         td = None
@@ -111,6 +118,9 @@ class Std:
         if td and td[0] == "typedef":
             params = [a.arg for a in init.args.args[1:]]
             loc2 = {p: ("expr", a, mod, loc) for p, a in zip(params, call.args)}
+            for k in call.keywords:
+                if k.arg in params:
+                    loc2[k.arg] = ("expr", k.value, mod, loc)
             return ("exttype", td[1], td[2], args, c.module, loc2, c)
         return None
 
